@@ -8,4 +8,4 @@ def build(reg):
     keep += wrappers.add_upwards(reg)
     keep += contops.add_contops(reg)  # a refused delete / move / copy leaves the container unchanged (guards come first)
     keep += interface.add_interface(reg)  # attach / detach through a read_only node: refused without effect
-    return {"verify": keep, "lemmas": [], "trusted": ["T7 wrapt.ObjectProxy: _self_* attributes are local to the wrapper; __wrapped__ is the raw object"], "assumptions": ["navigation chains of any length: every step creates its result through _wrap_if_node/_child_node_kwargs (proved flag-monotone), so flags are monotone along every chain; the list of navigation primitives that do so is checked bounded"]}
+    return {"verify": keep, "lemmas": [], "trusted": ["T7 wrapt.ObjectProxy: _self_* attributes are local to the wrapper; __wrapped__ is the raw object"] + contops.T_OPS, "assumptions": ["navigation chains of any length: every step creates its result through _wrap_if_node/_child_node_kwargs (proved flag-monotone), so flags are monotone along every chain; the list of navigation primitives that do so is checked bounded"]}
